@@ -230,6 +230,56 @@ fn check_valid(fmt: Fmt, canonical: &[u8], written_by_lib: Result<Vec<u8>, Strin
         Some(Err(e)) => p.violation(format!("C17/{:?}/valid-file-rejected", fmt), format!("{:?}: a canonical file is rejected: {e}", fmt), replay.clone()),
         None => {},
     }
+    // the file embedded in a larger stream (an archive member, a file behind a foreign header): read from, and written
+    // at, stream offsets that are not multiples of 4 and through stream-like readers / writers
+    if canonical.len() <= 4096 && !cfg!(miri) {
+        for k in [1usize, 2, 3, 6] {
+            let mut buf = vec![0xEEu8; k];
+            buf.extend_from_slice(canonical);
+            let mut cur = Cursor::new(&buf[..]);
+            cur.set_position(k as u64);
+            let got = guarded(|| match fmt {
+                Fmt::Pth => Pth::read(&mut cur).map(Parsed::Pth).map_err(|e| crate::ctx::short_err(&e.to_string())),
+                Fmt::Smx => Smx::read(&mut cur).map(Parsed::Smx).map_err(|e| crate::ctx::short_err(&e.to_string())),
+            });
+            p.evaluations += 1;
+            match got {
+                Ok(Ok(parsed)) => {
+                    let mut out = Cursor::new(vec![0xEEu8; k]);
+                    out.set_position(k as u64);
+                    let w = guarded(|| match &parsed {
+                        Parsed::Pth(x) => x.write(&mut out).map_err(|e| e.to_string()),
+                        Parsed::Smx(x) => x.write(&mut out).map_err(|e| e.to_string()),
+                    });
+                    let bytes = out.into_inner();
+                    if !matches!(w, Ok(Ok(()))) || bytes[k..] != canonical[..] {
+                        p.violation(format!("C17/{:?}/roundtrip-differs-at-stream-offset", fmt), format!("{:?}: read at stream offset {k} and written at offset {k}, a canonical file comes back as {} bytes instead of {} ({:?})", fmt, bytes.len() - k, canonical.len(), w.map(|x| x.map(|_| ()))), replay.clone());
+                    }
+                },
+                other => p.violation(format!("C17/{:?}/valid-file-rejected-at-stream-offset", fmt), format!("{:?}: a canonical file read from stream offset {k} is rejected: {:?}", fmt, other.map(|x| x.map(|_| ()))), replay.clone()),
+            }
+        }
+        let max = 1 + canonical.len() % 7;
+        let mut rd = crate::ioadapt::ChunkReader::new(canonical, max);
+        let got = guarded(|| match fmt {
+            Fmt::Pth => Pth::read(&mut rd).map(Parsed::Pth).map_err(|e| crate::ctx::short_err(&e.to_string())),
+            Fmt::Smx => Smx::read(&mut rd).map(Parsed::Smx).map_err(|e| crate::ctx::short_err(&e.to_string())),
+        });
+        p.evaluations += 1;
+        match got {
+            Ok(Ok(parsed)) => {
+                let mut sink = crate::ioadapt::ShortSink::new(max);
+                let w = guarded(|| match &parsed {
+                    Parsed::Pth(x) => x.write(&mut sink).map_err(|e| e.to_string()),
+                    Parsed::Smx(x) => x.write(&mut sink).map_err(|e| e.to_string()),
+                });
+                if !matches!(w, Ok(Ok(()))) || sink.inner.get_ref()[..] != canonical[..] {
+                    p.violation(format!("C17/{:?}/roundtrip-differs-on-chunked-streams", fmt), format!("{:?}: read {max} byte(s) per call and written {max} byte(s) per call, a canonical file comes back as {} bytes instead of {}", fmt, sink.inner.get_ref().len(), canonical.len()), replay.clone());
+                }
+            },
+            other => p.violation(format!("C17/{:?}/valid-file-rejected-on-chunked-reader", fmt), format!("{:?}: a canonical file read {max} byte(s) per call is rejected: {:?}", fmt, other.map(|x| x.map(|_| ()))), replay.clone()),
+        }
+    }
     // every strict prefix is rejected
     let cuts: Vec<usize> = if all_prefixes || canonical.len() <= 600 {
         (0..canonical.len()).collect()
